@@ -303,7 +303,28 @@ func runE2E(r *ev.Run, id caseID) {
 		var err error
 		del := g.Intn(6) == 0
 		var ackRev uint64
-		if del {
+		if g.Intn(5) == 0 {
+			// a transaction through the follower API: whichever branch runs, it writes the key; the
+			// compare fails in half of the cases (succeeded=false is an acknowledged write all the same)
+			want := []byte("never-the-value")
+			if g.Intn(2) == 0 {
+				ctxr, cr := context.WithTimeout(context.Background(), 3*time.Second)
+				if cur, err := kv.Range(ctxr, &pb.RangeRequest{Table: []byte("t"), Key: key}); err == nil && len(cur.Kvs) == 1 {
+					want = cur.Kvs[0].Value
+				}
+				cr()
+			}
+			var tr *pb.TxnResponse
+			tr, err = kv.Txn(ctx, &pb.TxnRequest{Table: []byte("t"),
+				Compare: []*pb.Compare{{Key: key, Result: pb.Compare_EQUAL, Target: pb.Compare_VALUE, TargetUnion: &pb.Compare_Value{Value: want}}},
+				Success: []*pb.RequestOp{{Request: &pb.RequestOp_RequestPut{RequestPut: &pb.RequestOp_Put{Key: key, Value: val}}}},
+				Failure: []*pb.RequestOp{{Request: &pb.RequestOp_RequestPut{RequestPut: &pb.RequestOp_Put{Key: key, Value: val}}}}})
+			ackRev = tr.GetHeader().GetRevision()
+			del = false
+			if err == nil {
+				r.Count("e2e_follower_txns_succeeded_"+fmt.Sprint(tr.Succeeded), 1)
+			}
+		} else if del {
 			var dr *pb.DeleteRangeResponse
 			dr, err = kv.DeleteRange(ctx, &pb.DeleteRangeRequest{Table: []byte("t"), Key: key, Count: g.Intn(3) == 0, PrevKv: g.Intn(3) == 0})
 			ackRev = dr.GetHeader().GetRevision()
